@@ -18,10 +18,11 @@ static const EAV_RFC RFC[4] = { EAV_RFC_822, EAV_RFC_5321, EAV_RFC_5322, EAV_RFC
 static int bit_of(int cls) { return 1 << (cls + 1); }       /* documented: EAV_TLD_x = 1 << (TLD_TYPE_x + 1) */
 static int code_of(int cls) { return EEAV_TLD_NOT_ASSIGNED + cls - TLD_TYPE_NOT_ASSIGNED; }
 
-typedef struct { char addr[128]; int cls; /* >0 class, 0 literal/accepted-without-class, <0 error code */ int syntactic; } real_t;
-static real_t REAL[40]; static int NREAL;
+typedef struct { char addr[128]; int cls; /* >0 class, 0 literal/accepted-without-class, <0 error code */ int only6531; /* the spelling is non-ASCII: ASCII modes are not judged here */ } real_t;
+static real_t REAL[64]; static int NREAL;
 
-static void add_real(const char *a, int cls) { snprintf(REAL[NREAL].addr, sizeof REAL[0].addr, "%s", a); REAL[NREAL].cls = cls; NREAL++; }
+static void add_real(const char *a, int cls) { snprintf(REAL[NREAL].addr, sizeof REAL[0].addr, "%s", a); REAL[NREAL].cls = cls; REAL[NREAL].only6531 = 0; NREAL++; }
+static void add_real6531(const char *a, int cls) { add_real(a, cls); REAL[NREAL - 1].only6531 = 1; }
 
 /* callback injection */
 static int CB_RC;
@@ -68,7 +69,7 @@ static void check_one(const char *sub, int mask, int m, int tld, const char *add
 static void mask_shard(long mask, void *arg) {
     (void)arg;
     for (int m = 0; m < 4; m++) for (int tld = 0; tld < 2; tld++) {
-        for (int i = 0; i < NREAL; i++) check_one("real", (int)mask, m, tld, REAL[i].addr, REAL[i].cls, 0);
+        for (int i = 0; i < NREAL; i++) { if (REAL[i].only6531 && m != 3) continue; check_one("real", (int)mask, m, tld, REAL[i].addr, REAL[i].cls, 0); }
         if (!tld) continue;
         for (int cls = 1; cls <= 9; cls++) check_one("callback", (int)mask, m, tld, "injected@callback.example", cls, 1);
         check_one("callback", (int)mask, m, tld, "injected@callback.example", 0, 1);
@@ -97,6 +98,11 @@ int main(int argc, char **argv) {
         if (c > 0 && c < 16 && seen[c] < 2) { char a[128]; snprintf(a, sizeof a, "user@host%d.%s", seen[c], RT_PUNY.row[i].domain); add_real(a, c); if (!seen[c]) classes_in_table++; seen[c]++; }
     }
     add_real("user@example.com", TLD_TYPE_SPECIAL); add_real("user@sub.localhost", TLD_TYPE_SPECIAL); add_real("user@test", TLD_TYPE_SPECIAL);
+    /* the same classes spelled the way IDNA maps them (ideographic / fullwidth full stop, fullwidth letters, upper case): mode 6531 only */
+    add_real6531("user@mail.example\xe3\x80\x82" "com", TLD_TYPE_SPECIAL); add_real6531("user@sub\xef\xbc\x8e" "localhost", TLD_TYPE_SPECIAL);
+    add_real6531("user@\xef\xbd\x94\xef\xbd\x85\xef\xbd\x93\xef\xbd\x94", TLD_TYPE_SPECIAL); add_real6531("user@a.\xef\xbd\x8f\xef\xbd\x8e\xef\xbd\x89\xef\xbd\x8f\xef\xbd\x8e", TLD_TYPE_SPECIAL);
+    add_real6531("user@\xd0\xbf\xd0\xbe\xd1\x87\xd1\x82\xd0\xb0.\xd1\x80\xd1\x84", TLD_TYPE_COUNTRY_CODE); add_real6531("user@\xd0\xbf\xd0\xbe\xd1\x87\xd1\x82\xd0\xb0\xe3\x80\x82\xd0\xa0\xd0\xa4", TLD_TYPE_COUNTRY_CODE);
+    add_real("user@Host.EXAMPLE.Org", TLD_TYPE_SPECIAL);
     add_real("user@host.zzzzq", -EEAV_TLD_INVALID); add_real("user@singlelabel", -EEAV_DOMAIN_NOT_FQDN);
     add_real("user@[192.0.2.1]", 0); add_real("user@[IPv6:2001:db8::1]", 0);
     add_real("user@-bad.com", -EEAV_DOMAIN_MISPLACED_HYPHEN); add_real("us er@ok.com", -EEAV_LPART_SPECIAL); add_real("user@", -EEAV_DOMAIN_EMPTY); add_real("", -EEAV_EMAIL_EMPTY);
